@@ -32,10 +32,85 @@ def malformed_side_check(r):
     r.coverage["concrete_malformed_forms"] = n
 
 
+def redefinition_side_check(r):
+    """History: a dataclass / NamedTuple is lowered, then ANOTHER class with the same name (same module and qualified name: a re-run
+    notebook cell, make_dataclass called again) with other fields is lowered: every constructor call must be bound against the class it
+    actually names at that moment.  Concrete; the oracle is inspect.signature(cls).bind of the live class."""
+    import dataclasses
+    import inspect
+    from typing import NamedTuple
+    from func_adl.ast.syntatic_sugar import resolve_syntatic_sugar
+    n = 0
+
+    def lower(cls, call_src):
+        tree = ast.parse("lambda e: " + call_src, mode="eval").body
+
+        class _bind(ast.NodeTransformer):
+            def visit_Name(self, node):
+                return ast.Constant(cls) if node.id == "Row" else node
+        tree = _bind().visit(tree)
+        return resolve_syntatic_sugar(tree).body
+
+    def expect(cls, call_src):
+        call = ast.parse(call_src, mode="eval").body
+        ba = inspect.signature(cls).bind_partial(*[ast.unparse(a) for a in call.args], **{k.arg: ast.unparse(k.value) for k in call.keywords})
+        return dict(ba.arguments)
+
+    generations = [
+        [("pt", int), ("eta", int)],
+        [("eta", int), ("pt", int), ("phi", int)],
+        [("phi", int)],
+        [("pt", int), ("eta", int)],
+    ]
+    calls = ["Row(e.a, e.b)", "Row(e.a, e.b, e.c)", "Row(pt=e.a, eta=e.b)", "Row(e.a)", "Row(e.a, phi=e.c, pt=e.b)", "Row(phi=e.a)"]
+    for kind in ("dataclass", "namedtuple"):
+        for fields in generations:
+            if kind == "dataclass":
+                cls = dataclasses.make_dataclass("Row", fields)
+            else:
+                cls = NamedTuple("Row", fields)
+            cls.__module__ = __name__
+            cls.__qualname__ = "Row"
+            for c in calls:
+                n += 1
+                try:
+                    want = expect(cls, c)
+                except TypeError:
+                    want = None
+                try:
+                    got = lower(cls, c)
+                except ValueError:
+                    got = None
+                except Exception as e:  # noqa
+                    r.violation("%s Row%r: %s raised %s" % (kind, [f for f, _ in fields], c, type(e).__name__), {"engine": "concrete", "program": c})
+                    continue
+                if want is None:
+                    if got is not None:
+                        r.violation("%s Row%r: %s does not bind in python but was lowered to %s" % (kind, [f for f, _ in fields], c, ast.unparse(got)), {"engine": "concrete", "program": c})
+                    continue
+                if got is None:
+                    r.violation("%s Row%r: %s binds in python but was refused" % (kind, [f for f, _ in fields], c), {"engine": "concrete", "program": c, "history": "same-named class redefined"})
+                    continue
+                gd = {k.value: ast.unparse(v) for k, v in zip(got.keys, got.values)} if isinstance(got, ast.Dict) else None
+                if gd != want:
+                    r.violation("%s Row%r: %s lowered to %s, python binds %r" % (kind, [f for f, _ in fields], c, ast.unparse(got), want),
+                                {"engine": "concrete", "program": c, "history": "same-named class redefined"})
+    r.coverage["concrete_redefinition_history_calls"] = n
+
+
 def t_units(tier):
     N = 2 if tier == "quick" else 3
     us, n = tvbase.source_units(sources.COMPS, ("x", "y"), "sugar", N, "comprehension-family", nchunks=12, rtypes={})
     mp = 9 if tier == "quick" else 11
+    # through the whole acquisition path (real lambdas in a generated module): loop variables that have the name of a module-level
+    # constant, re-used by a nested comprehension / lambda, and used again afterwards
+    cap = ["lambda e: [(len([x for x in e.si_hits if x > 1]), x) for x in e.si_hits]",
+           "lambda e: e.so_jets.Select(lambda x: (len([x for x in x.si_hits]), x))",
+           "lambda e: [x for x in e.si_hits if len([x for x in e.si_hits if x < y]) > 1 if x > y]",
+           "lambda e: [(len([x + y for x in e.si_hits if x > 1]), x) for x in e.si_hits if x < y]",
+           "lambda x: ([x.i_pt for x in x.so_jets], x.i_eta, [y for y in x.si_hits if y > x.i_eta], y)",
+           "lambda e: sum(x + y for x in e.si_hits if x > y) + len([y for y in e.si_hits]) + y"]
+    us.append(dict(kind="helpers", N=N, label="comprehension-captured-names", cases=[dict(helpers="x = 3\ny = 4\n", lam=c, names=["x", "y"]) for c in cap]))
     for form in ("fn", "meth"):
         for a in range(3):
             us.append(dict(kind="grammar", form=form, feats=["comp", "first", "count", "tuple"], stages=2, depth=2, maxpicks=mp, fixed=[a], schemes=["reuse"],
@@ -60,6 +135,10 @@ def run(tier):
     tvbase.finish_t(r, tier, ["func_adl.ast.syntatic_sugar.resolve_syntatic_sugar (resolve_generator, visit_ListComp, visit_GeneratorExp, visit_Call, convert_call_to_dict)"],
                     {"N_collection_length": 2 if tier == "quick" else 3, "ifs": [0, 3], "fields": [1, 4]})
     malformed_side_check(r)
+    try:
+        redefinition_side_check(r)
+    except Exception as e:  # noqa
+        r.harness_error("redefinition side check crashed: %r" % (e,))
     return r.finish()
 
 
